@@ -3,6 +3,7 @@ import itertools
 from check import Property
 from props import coreutil as cu
 from props import pcutil as pu
+from props import nodeutil as nu
 
 PC_ALG = "-|3:43c80000"
 
@@ -178,16 +179,70 @@ class C03(Property):
                     out.append(pc_line(rng, hist, ini))
                     hist = ["s%d" % src, "s%d" % src, "d%d0" % dst, "d%d1" % dst] + ["t%d" % dst] * k + ["d%d0" % dst, "d%d1" % dst]
                     out.append(pc_line(rng, hist, ini))
+        # NODE level ("tick driven once per second for every peer"): a payload datagram captured on the wire is re-delivered r housekeeping
+        # rounds after its first delivery, r = 0..5 - plain, and with a handshake ping of the sender replayed first (a second, never
+        # completing handshake entry for the sender's address then sits next to the established connection)
+        for r in range(0, 6):
+            for variant in ("plain", "ping-first", "ping-later"):
+                for mode in (["tun-router", "tap-switch"] if thorough else ["tun-router"]):
+                    s = nu.Scenario()
+                    if mode.startswith("tun"):
+                        s.node(1, mode=mode, claims=["0a000100/24"])
+                        s.node(2, mode=mode, claims=["0a000200/24"])
+                        frame = nu.ipv4_packet(nu.node_ip(1), nu.node_ip(2), bytes([r, 7]))
+                    else:
+                        s.node(1, mode=mode)
+                        s.node(2, mode=mode)
+                        frame = nu.eth_frame(b"\xff" * 6, nu.mac(1), None, b"\x08\x00" + bytes([r, 7]))
+                    s.add("C.1.2", "A")
+                    s.tick(rng.choice([2, 70]))            # 70: the initiator has stopped lingering
+                    if variant == "ping-first":
+                        s.add("J.0.2.1")
+                    s.add("P.1.%s" % frame, "A", "O.2")
+                    if variant == "ping-later":
+                        s.add("J.0.2.1")
+                    for _ in range(r):
+                        s.t += 1
+                        s.add("T.%d" % s.t, "H.1", "H.2", "A")
+                    s.add("X.9990", "L.2.1.d.0", "O.2", "S.2")
+                    out.append(s.line())
         return out
+
+    def model_line(self, line, impl_out):
+        return nu.model_line(line, impl_out) if line.startswith("node ") else line
+
+    def canon_impl(self, line, out):
+        return nu.canon_impl(out) if line.startswith("node ") else super().canon_impl(line, out)
+
+    def oracle_node(self, line, impl_out):
+        ops, outs = line.split()[1:], impl_out.split()
+        if len(ops) != len(outs):
+            return "driver returned %d results for %d ops" % (len(outs), len(ops))
+        if any(r.startswith("panic") for r in outs):
+            return "panic"
+        k = ops.index("X.9990")
+        rounds = sum(1 for o in ops[:k] if o == "H.2") - sum(1 for o in ops[:ops.index([o for o in ops if o.startswith("P.1.")][0])] if o == "H.2")
+        first = outs[[i for i, o in enumerate(ops) if o.startswith("P.1.")][0] + 2]
+        if first == "w-":
+            return "the payload was not delivered in the first place"
+        again = outs[k + 2]
+        if rounds >= 2 and again != "w-":
+            return ("a payload datagram captured on the wire was accepted again %d housekeeping rounds after its first delivery (interface of node 2 "
+                    "got %s): a captured datagram dies within two ticks") % (rounds, again[:40])
+        return None
 
     def nontrivial(self, line, impl_out):
         toks = impl_out.split()
+        if line.startswith("node "):
+            return True
         if line.startswith("pc "):
             return "err" in toks and any(t.startswith("Msg0:") for t in toks)
         return "err" in toks and any(t.startswith("ok:") for t in toks)
 
     def tag(self, line, impl_out):
         toks = impl_out.split()
+        if line.startswith("node "):
+            return "node:" + ("ping" if " J.0.2.1 " in line else "plain")
         if line.startswith("pc "):
             return "pc:ok%d/err%d" % (min(3, sum(t.startswith("Msg0:") for t in toks)), min(3, toks.count("err")))
         return "ok%d/err%d/rot%d" % (min(3, sum(t.startswith("ok:") for t in toks)), min(3, toks.count("err")),
@@ -229,6 +284,8 @@ class C03(Property):
 
     def oracle(self, line, impl_out):
         """history-only reference on the real accept/reject outcomes (histories without rotation)"""
+        if line.startswith("node "):
+            return self.oracle_node(line, impl_out)
         if line.startswith("pc "):
             return self.oracle_pc(line, impl_out)
         alg, key, ra, rb, ops = cu.parse_line(line)
